@@ -288,7 +288,7 @@ PROPS = {
                  "buff_to_bmoc with largest_lower_cell_sequence_len and the power-of-two arithmetic, merge by or) as a state machine and TLC checks, "
                  "for every push sequence of <= 5 pushes over 8 (12) cells and every capacity, that accumulated + buffered = pushed at every step, "
                  "that the sorted flag is truthful and that the result is None iff nothing was pushed (22 k / 280 k states). Thorough tier: MC_BmocAlgoDeep "
-                 "runs the transcriptions of pack / not / to_lower_depth on all 83 522 well-formed plain cell lists of depth <= 2 in a base cell "
+                 "runs the transcriptions of pack / not / to_lower_depth on 98 882 well-formed plain cell lists (all those of depth <= 2 in a base cell, and the exploded ones of depth <= 3) "
                  "(four full siblings at either level, three full sibling base cells beside them: cascades of two levels that must stop at depth 0). Code level: "
                  "the fixed-depth builder must return exactly the set of pushed cells with the requested flag (semantic equality with the forest "
                  "of the pushed set), None iff nothing was pushed; pack must keep the cell-to-state map and leave no four full siblings; lower-depth "
